@@ -115,6 +115,10 @@ func SearchSessionC12(t *tape.Tape) *core.RunResult {
 	for _, n := range ns {
 		core.Beat()
 		cc := newCountingCtx(ctx, n)
+		if n%2 == 1 {
+			// a context ends by its deadline as well as by a cancel function: every other halt is of that kind
+			cc.why = context.DeadlineExceeded
+		}
 		tt := makeTable()
 		var rec *recTT
 		sctx := &search.Context{TT: tt}
